@@ -68,6 +68,24 @@ class SymBuiltins:
                 return v
         raise KeyError(key)
 
+    def get(self, key, default=None):
+        for k, v in self.slots:
+            if k == key:
+                return v
+        return default
+
+    def keys(self):
+        return [k for k, v in self.slots]
+
+    def values(self):
+        return [v for k, v in self.slots]
+
+    def items(self):
+        return list(self.slots)
+
+    def __iter__(self):
+        return iter(self.keys())
+
 
 def eqt(a, b):
     if a.t.eq(b.t):
